@@ -248,8 +248,13 @@ class PageBreakCalculator(BaseModel):
         additional_rows_per_page: int = 0,
         new_page: bool = False,
         pageby_rows_rendered: bool = True,
+        heading_attrs: TableAttributes | None = None,
     ) -> pl.DataFrame:
         """Generate complete row metadata for pagination.
+
+        `heading_attrs` are the body attributes in original column order: a
+        page_by spanning row is rendered in the font and size of its own column
+        (first row of the attribute grid), so it is measured in that type.
 
         `pageby_rows_rendered` tells whether page_by values are rendered as
         spanning rows (False when the page_by columns stay in the table, i.e.
@@ -364,9 +369,15 @@ class PageBreakCalculator(BaseModel):
                     val = df[col][row_idx]
                     if str(val) == "-----":
                         continue
+                    head_font, head_size = self._heading_type(
+                        heading_attrs, df, col, font_size
+                    )
                     level_rows = self._calculate_header_rows(
-                        str(val), total_width, font_size=int(font_size)
-                    )  # type: ignore
+                        str(val),
+                        total_width,
+                        font=head_font,  # type: ignore[arg-type]
+                        font_size=head_size,  # type: ignore[arg-type]
+                    )
                     pageby_top_rows += level_rows
                     if page_by_changes[row_idx] and level >= first_changed:
                         pageby_rows += level_rows
@@ -424,6 +435,25 @@ class PageBreakCalculator(BaseModel):
 
         # Assign pages
         return self._assign_pages(meta_df, additional_rows_per_page, new_page)
+
+    @staticmethod
+    def _heading_type(heading_attrs, df: pl.DataFrame, col: str, font_size: float):
+        """Font and size of the spanning row of page_by column `col`: those the
+        renderer takes from the column's own cell in the first attribute row."""
+        font = 1
+        size = font_size
+        if heading_attrs is None or col not in df.columns:
+            return font, int(size)
+        col_idx = df.columns.index(col)
+        size_value = getattr(heading_attrs, "text_font_size", None)
+        if size_value is not None:
+            size = BroadcastValue(value=size_value, dimension=None).iloc(0, col_idx)
+        font_value = getattr(heading_attrs, "text_font", None)
+        if font_value is not None:
+            resolved = BroadcastValue(value=font_value, dimension=None).iloc(0, col_idx)
+            if isinstance(resolved, int) and 1 <= resolved <= 10:
+                font = resolved
+        return font, size
 
     def _calculate_header_rows(
         self,
